@@ -250,3 +250,13 @@ def secp_basics():
     # RFC 6979 / low-S signing agrees with verification
     r, s = secp.ecdsa_sign(12345, 67890)
     assert secp.ecdsa_verify(secp.mul(12345), 67890, r, s) and s <= secp.N // 2
+
+
+@check
+def retarget_known_mainnet():
+    # first mainnet retarget that changed difficulty: block 32256 (bits 1d00d86a) from 1d00ffff with the actual timespan of that period
+    # (timestamps of blocks 30240 and 32255: 1261130161 and 1262152739)
+    assert p2p.retarget(bytes.fromhex("ffff001d"), 1262152739 - 1261130161) == bytes.fromhex("6ad8001d")
+    assert p2p.retarget(bytes.fromhex("ffff001d"), p2p.TWO_WEEKS * 10) == bytes.fromhex("ffff001d")
+    assert p2p.target_to_compact(0xFFFF << 208) == bytes.fromhex("ffff001d")
+    assert p2p.target_to_compact(0x80) == struct.pack("<I", 0x02008000)
